@@ -17,9 +17,7 @@ mod chain;
 
 use chain::*;
 use lv_core::*;
-use serde_json::{Value, json};
-use std::collections::BTreeMap;
-use std::time::Duration;
+use serde_json::json;
 use tendermint::block::CommitSig;
 
 const MAX_TOTAL: u64 = (i64::MAX / 8) as u64;
@@ -119,7 +117,7 @@ fn plan_for(powers: &[u64], heights: usize) -> ChainPlan {
 // ---------------------------------------------------------------------------------------
 // light
 
-const L_SYMS: [&str; 5] = ["V", "F", "O", "N", "A"];
+// entry kinds of the light part: 0 = V, 1 = F, 2 = O, 3 = N, 4 = A
 
 struct LightBase {
     b: Built,
@@ -227,13 +225,13 @@ fn eval_light(base: &LightBase, powers: &[u64], digits: &[u8], shape: u8, seed: 
     }
 }
 
-fn run_light(keys: &Keys, powers: &[u64], syms: &[u8], rep: &mut Report) {
+fn run_light(keys: &Keys, powers: &[u64], syms: &[u8], part: u64, parts: u64, rep: &mut Report) {
     let n = powers.len();
     let base = light_base(keys, powers);
     let k = syms.len();
     let count = (k as u64).pow(n as u32);
     let mut digits = vec![0u8; n];
-    for c in 0..count {
+    for c in (0..count).filter(|c| c % parts == part) {
         let mut x = c;
         for d in digits.iter_mut() {
             *d = syms[(x % k as u64) as usize];
@@ -360,13 +358,13 @@ fn eval_trust(base: &TrustBase, powers: &[u64], seq: &[u8], seed: u64, rep: &mut
     }
 }
 
-fn run_trust(keys: &Keys, powers: &[u64], max_len: usize, rep: &mut Report) {
+fn run_trust(keys: &Keys, powers: &[u64], max_len: usize, part: u64, parts: u64, rep: &mut Report) {
     let base = trust_base(keys, powers);
     let a = base.entries.len() as u64;
     for m in 0..=max_len {
         let count = a.pow(m as u32);
         let mut seq = vec![0u8; m];
-        for c in 0..count {
+        for c in (0..count).filter(|c| c % parts == part) {
             let mut x = c;
             for d in seq.iter_mut() {
                 *d = (x % a) as u8;
@@ -404,15 +402,15 @@ fn main() {
     } else {
         let keys = Keys::new(ctx.seed, 16);
         let mut jobs: Vec<Job> = vec![];
-        let (lmax, l123) = if thorough { (7, 5) } else { (5, 4) };
+        let (lmax, l123) = if thorough { (8, 5) } else { (6, 4) };
         for n in 1..=lmax {
             for pv in power_vectors(n, l123, thorough) {
                 jobs.push(Job::Light(pv, vec![0, 1, 2, 3, 4]));
             }
         }
         if thorough {
-            // 8..10 validators: every subset of signers, the others uniformly one other kind
-            for n in 8..=10 {
+            // 9..10 validators: every subset of signers, the others uniformly one other kind
+            for n in 9..=10 {
                 for pv in power_vectors(n, 0, true) {
                     for other in 1..=4u8 {
                         jobs.push(Job::Light(pv.clone(), vec![0, other]));
@@ -427,23 +425,32 @@ fn main() {
             }
         }
         if thorough {
-            // 5 trusted validators, commits of up to 4 entries
+            // 5 trusted validators, commits of up to 5 entries
             for pv in power_vectors(5, 0, true) {
-                jobs.push(Job::Trust(pv, 4));
+                jobs.push(Job::Trust(pv, 5));
+            }
+        } else {
+            // 4 trusted validators, commits of up to 3 entries
+            for pv in power_vectors(4, 0, false) {
+                jobs.push(Job::Trust(pv, 3));
             }
         }
-        let _ = BTreeMap::<u8, u8>::new();
-        let _ = Duration::from_secs(0);
-        par_cases(jobs, |job, rep| match job {
-            Job::Light(pv, syms) => run_light(&keys, &pv, &syms, rep),
-            Job::Trust(pv, m) => run_trust(&keys, &pv, m, rep),
+        let all_jobs = jobs;
+        let jobs = &all_jobs;
+        // split every job into 16 residue classes of the enumeration index (load balance)
+        const PARTS: u64 = 16;
+        let jobs: Vec<(usize, u64)> = (0..jobs.len()).flat_map(|j| (0..PARTS).map(move |p| (j, p))).collect();
+        let all = &all_jobs;
+        par_cases(jobs, |(j, part), rep| match &all[j] {
+            Job::Light(pv, syms) => run_light(&keys, pv, syms, part, PARTS, rep),
+            Job::Trust(pv, m) => run_trust(&keys, pv, *m, part, PARTS, rep),
         })
     };
     finish(
         &ctx,
         rep,
         Spec {
-            rule: "LIGHT (through ExtendedHeader::validate, everything but the commit entries valid): n validators (quick 1..5, thorough 1..7) x power vectors {all of {1,2,3}^n for n<=4 (thorough 5), ramp 1..n, 100 each, 199/1/1/99.., 99/1/1/199.., one validator holding MAX_TOTAL-(n-1)} x every assignment of {V valid commit, F forged commit, O commit signed by another validator under that validator's address, N honest nil vote, A absent} to the n entries (5^n), plus for assignments over {V,A}: last entry dropped / duplicated / commit height+1; thorough adds n=8..10 with every signer subset and the non-signers uniformly F, O, N or A. TRUSTING (through trusted.verify(untrusted), non-adjacent, chain id and times right): nt trusted validators (quick 1..3, thorough 1..4 and 5) x power vectors x every sequence of length 0..=nt+1 (nt=5: 0..=4) over {valid / forged / nil entry of each trusted validator, valid entry of a stranger, absent} — includes every double listing in both orders. distinct = (part, powers, assignment); non-trivial = signing power within one unit of the threshold, or a duplicated validator",
+            rule: "LIGHT (through ExtendedHeader::validate, everything but the commit entries valid): n validators (quick 1..6, thorough 1..8) x power vectors {all of {1,2,3}^n for n<=4 (thorough 5), ramp 1..n, 100 each, 199/1/1/99.., 99/1/1/199.., one validator holding MAX_TOTAL-(n-1)} x every assignment of {V valid commit, F forged commit, O commit signed by another validator under that validator's address, N honest nil vote, A absent} to the n entries (5^n), plus for assignments over {V,A}: last entry dropped / duplicated / commit height+1; thorough adds n=9..10 with every signer subset and the non-signers uniformly F, O, N or A. TRUSTING (through trusted.verify(untrusted), non-adjacent, chain id and times right): nt trusted validators (quick 1..3 and 4, thorough 1..4 and 5) x power vectors x every sequence of length 0..=nt+1 (quick nt=4: 0..=3; nt=5: 0..=5) over {valid / forged / nil entry of each trusted validator, valid entry of a stranger, absent} — includes every double listing in both orders. distinct = (part, powers, assignment); non-trivial = signing power within one unit of the threshold, or a duplicated validator",
             assumptions: &[
                 "verify_commit_light / verify_commit_light_trusting are private; they are observed through validate() / verify(), whose other checks are satisfied by construction (self-checked base header)",
                 "VERIF_SEED selects key material and hash payloads only",
